@@ -105,6 +105,13 @@ struct Deque {
     count--;
   }
   void clear() { head = count = 0; }
+  TaskRec& at(size_t i) { return buf[(head + i) % cap]; }
+  const TaskRec& at(size_t i) const { return buf[(head + i) % cap]; }
+  // removes element i (0 = front) keeping the order of the others
+  void erase(size_t i) {
+    for (size_t k = i; k + 1 < count; k++) at(k) = at(k + 1);
+    count--;
+  }
 };
 
 enum St { UNUSED, NOTSTARTED, RUNNING, READY, INLOOP, BLOCKED, JOINWAIT, EXITED };
@@ -169,11 +176,25 @@ bool eligible(const Thread* thief, const TaskRec& r) {
   return thief->iso == 0 || thief->iso == r.iso;
 }
 
+// As in oneTBB's task pools: a thread takes from the tail of its own pool and a thief from the head of
+// the victim's, and both skip over tasks they may not run (other isolation region, other arena) instead of
+// stopping at them.
+long find_own(const Thread* me) {
+  for (size_t i = me->dq.count; i-- > 0;)
+    if (eligible(me, me->dq.at(i))) return (long)i;
+  return -1;
+}
+long find_steal(const Thread* thief, const Thread* v) {
+  for (size_t i = 0; i < v->dq.count; i++)
+    if (eligible(thief, v->dq.at(i))) return (long)i;
+  return -1;
+}
+
 bool has_work(Thread* w) {
-  if (!w->dq.empty() && eligible(w, w->dq.back())) return true;
+  if (find_own(w) >= 0) return true;
   for (int i = 0; i < g_n; i++) {
     Thread* v = &g_t[i];
-    if (v != w && !v->dq.empty() && eligible(w, v->dq.front())) return true;
+    if (v != w && find_steal(w, v) >= 0) return true;
   }
   return false;
 }
@@ -350,25 +371,26 @@ void dispatch(Thread* me, wait_context* w) {
     int src[kMaxThreads + 1];
     int n = 0;
     bool own = false;
-    if (!me->dq.empty() && eligible(me, me->dq.back())) {
+    if (find_own(me) >= 0) {
       src[n++] = -1;
       own = true;
     }
     for (int i = 0; i < g_n; i++) {
       Thread* v = &g_t[i];
-      if (v != me && !v->dq.empty() && eligible(me, v->dq.front()))
-        src[n++] = i;
+      if (v != me && find_steal(me, v) >= 0) src[n++] = i;
     }
     if (n == 0) continue;
     const int c = decide(1, src, n, 0, own ? 0 : -1, g_cfg.ownBias);
     TaskRec r;
     if (src[c] == -1) {
-      r = me->dq.back();
-      me->dq.pop_back();
+      const long k = find_own(me);
+      r = me->dq.at((size_t)k);
+      me->dq.erase((size_t)k);
     } else {
       Thread* v = &g_t[src[c]];
-      r = v->dq.front();
-      v->dq.pop_front();
+      const long k = find_steal(me, v);
+      r = v->dq.at((size_t)k);
+      v->dq.erase((size_t)k);
       g_st.steals++;
     }
     run_task(me, r);
